@@ -47,7 +47,7 @@ SMALL = ["small_ragged", "small_repeats", "small_alphabet1", "small_tie_costs", 
 OC_CLASSES = [c for c in G.CLASSES if c != "nondyadic"] + SMALL + ["mismatch", "small_mismatch", "multi_repeat",
                                                                      "cheap_sub_ragged"]
 LOSS_CLASSES = ["ocd_uniform", "ocd_ragged", "ocd_repeats", "ocd_hyp_longer", "ocd_alphabet1", "ocd_spread",
-                "ocd_mismatch"]
+                "ocd_mismatch", "ocd_teacher_forced"]
 CLASSES = OC_CLASSES + LOSS_CLASSES + ["zero_dim_eos"]
 FLOORS = {
     "quick": {
@@ -56,8 +56,10 @@ FLOORS = {
                    "assert:padding-only-after": 12000, "assert:past-end-padding": 3000,
                    "assert:targets-definitional": 10000, "assert:oracle-cross": 10000,
                    "assert:loss-none-value": 1200, "assert:loss-sum-value": 150,
-                   "assert:loss-mean-uniform": 30, "assert:loss-mean-ragged": 100},
-        "classes": dict({c: 70 for c in OC_CLASSES}, **{c: 70 for c in LOSS_CLASSES}),
+                   "assert:loss-mean-uniform": 30, "assert:loss-mean-ragged": 100,
+                   "assert:loss-mean-one-convention": 30},
+        "classes": dict({c: 70 for c in OC_CLASSES}, mean_convention_discriminated_on_both_batches=25,
+                        loss_batch_without_any_multi_target_prefix=30, **{c: 70 for c in LOSS_CLASSES}),
         "stats": {"prefixes_with_several_targets": 800, "prefixes_without_target": 3000,
                   "target_token_repeated_in_ref": 4000, "hyp_longer_than_ref_pairs": 2000,
                   "brute_pairs": 3500, "form_module": 1000, "unjudged_empty_hyp_pairs": 500,
@@ -173,8 +175,49 @@ def generate(rng, tier, i):
     return case
 
 
+def _gen_teacher_forced(rng, tier, j):
+    """Every hypothesis is a (proper or full) prefix of its own reference, references without repeated tokens, unit
+    costs: NO prefix in the whole batch has more than one optimal next token, and the sequences contribute different
+    numbers of prefixes.  A second, ordinary ragged batch under the same settings rides along (`probe`): whatever
+    convention 'mean' follows, it is the same function of the per-prefix losses on both batches (the probe keeps its own vocabulary, eos and costs)."""
+    V = rng.randint(3, 6)
+    eos = rng.randrange(V)
+    toks = [t for t in range(V) if t != eos]
+    N = rng.randint(2, 4)
+    R = rng.randint(2, len(toks))
+    ks = [rng.randint(0, R) for _ in range(N)]
+    if len(set(ks)) == 1:
+        ks[0] = (ks[0] + 1 + rng.randrange(R)) % (R + 1)
+    H = max(ks) + 1
+    refs, hyps = [], []
+    for n in range(N):
+        ref = rng.sample(toks, rng.randint(max(1, ks[n]), R))
+        hyp = ref[:ks[n]] + [eos]
+        hyp += [rng.choice(toks + [eos, 97, -5]) for _ in range(H - len(hyp))]
+        if len(ref) < R:
+            ref = ref + [eos] + [rng.choice(toks + [eos]) for _ in range(R - len(ref) - 1)]
+        refs.append(ref)
+        hyps.append(hyp)
+    scale = rng.choice([0.5, 1.0, 3.0])
+    logits = [[[round(rng.gauss(0.0, 1.0) * scale, 3) for _ in range(V)] for _ in range(H)] for _ in range(N)]
+    case = {
+        "class": "ocd_teacher_forced", "kind": "loss", "ref": refs, "hyp": hyps, "logits": logits, "V": V, "eos": eos,
+        "include_eos": rng.random() < 0.5, "batch_first": rng.random() < 0.5,
+        "reduction": "mean" if rng.random() < 0.8 else rng.choice(["none", "sum"]), "costs": [1.0, 1.0, 1.0],
+        "ignore_index": rng.choice([-2, -100, -1]), "form": rng.choice(["functional", "module"]),
+        "R": R, "H": H,
+    }
+    probe = gen_loss_case(rng, tier, LOSS_CLASSES.index(rng.choice(["ocd_ragged", "ocd_mismatch"])))
+    for k in ("batch_first", "reduction", "form"):
+        probe[k] = case[k]
+    case["probe"] = probe
+    return case
+
+
 def gen_loss_case(rng, tier, j):
     cls = LOSS_CLASSES[j % len(LOSS_CLASSES)]
+    if cls == "ocd_teacher_forced":
+        return _gen_teacher_forced(rng, tier, j)
     big = tier == "thorough"
     maxlen = 9 if big else 6
     V = rng.randint(2, 6)
@@ -399,6 +442,16 @@ def _call_loss(mon, case, logits, ref, hyp):
         return mon.lib(name, lambda: F.hard_optimal_completion_distillation_loss(logits, ref, hyp, warn=False, **kw))
 
 
+def _targets_of(case, n):
+    r = lev.seq_of(case["ref"][n], case["eos"], case["include_eos"])
+    h = lev.seq_of(case["hyp"][n], case["eos"], case["include_eos"])
+    if not h:
+        return []
+    ins, dl, sub = case["costs"]
+    tab = O.targets_by_prefix(r, h, ins, dl, sub)
+    return [tab[k] for k in range(min(len(h), case["H"]))]
+
+
 def _nll(logit_row):
     m = max(logit_row)
     lse = m + math.log(sum(math.exp(x - m) for x in logit_row))
@@ -419,6 +472,7 @@ def _exec_loss(case, mon):
     ins, dl, sub = case["costs"]
     red = case["reduction"]
     ign = case["ignore_index"]
+    readings = None
     judged = G.is_dyadic(case["costs"]) and min(case["costs"]) > 0
     judged = judged and all(ign not in col for col in case["ref"])
     judged = judged and all(0 <= t < V for col in case["ref"] for t in col)
@@ -528,13 +582,29 @@ def _exec_loss(case, mon):
             if hit:
                 if len(hit) < len(cands):
                     mon.observe("mean_reading_on_ragged", "+".join(sorted({x.split("/")[0] for x in hit})))
+                readings = {"got": g, "agree": sorted({x.split("/")[0] for x in hit}),
+                            "all": sorted({x.split("/")[0] for x in cands}),
+                            "values": {k: v for k, v in cands.items()}}
     if not nontrivial:
         mon.trivial()
+    return readings
 
 
 def execute(case, mon):
     if case.get("kind", "oc") == "loss":
-        _exec_loss(case, mon)
+        a = _exec_loss(case, mon)
+        if case.get("probe") is not None:
+            probe = dict(case["probe"], layout=case.get("layout"))
+            b = _exec_loss(probe, mon)
+            if a and b:
+                if len(a["agree"]) < len(a["all"]) and len(b["agree"]) < len(b["all"]):
+                    mon.cls("mean_convention_discriminated_on_both_batches")
+                if all(len(t) <= 1 for n in range(len(case["ref"])) for t in _targets_of(case, n)):
+                    mon.cls("loss_batch_without_any_multi_target_prefix")
+                mon.check(bool(set(a["agree"]) & set(b["agree"])), "loss-mean-one-convention",
+                          batch=a, second_batch=b,
+                          why="'mean' follows one convention on one batch and another on a second batch "
+                              "under the same settings")
     else:
         _exec_oc(case, mon)
 
